@@ -74,7 +74,7 @@ type callOutcome struct {
 
 // guardedCall runs f in its own goroutine. No other goroutine touches the structure, so a call
 // found parked on a sync primitive inside golib in three consecutive samples can never be woken:
-// that is a self-deadlock. A call that neither returns nor parks for 120 s is reported as not terminating.
+// that is a self-deadlock. A call that neither returns nor parks for 45 s is reported as not terminating.
 func guardedCall(f func() []reflect.Value) callOutcome {
 	type res struct {
 		r []reflect.Value
@@ -114,8 +114,8 @@ func guardedCall(f func() []reflect.Value) callOutcome {
 		} else {
 			blocked = 0
 		}
-		if time.Since(start) > 120*time.Second {
-			return callOutcome{blocked: fmt.Sprintf("no return within 120 s, goroutine state [%s]\n%s", st, trim(stack, 18))}
+		if time.Since(start) > 45*time.Second {
+			return callOutcome{blocked: fmt.Sprintf("no return within 45 s, goroutine state [%s]\n%s", st, trim(stack, 18))}
 		}
 	}
 }
@@ -145,7 +145,7 @@ var sweepItems = func() []sweepItem {
 	var out []sweepItem
 	for _, ct := range ctypes {
 		for _, m := range methodNames(ct) {
-			for _, st := range []string{"empty", "three", "grown", "full", "self-arg", "panicking-key", "panicking-callback", "negative-capacity"} {
+			for _, st := range []string{"empty", "three", "grown", "full", "self-arg", "panicking-key", "panicking-callback", "negative-capacity", "negative-keys-grown-full"} {
 				out = append(out, sweepItem{ct.Name, m, st})
 			}
 		}
@@ -182,6 +182,16 @@ func runSweepItem(i uint64) (bool, error) {
 			sc.Call(in)
 		}
 	}
+	if it.State == "negative-keys-grown-full" {
+		// 200 elements with the keys -1 .. -200 (the table has grown twice with them inside), then the bound is set to 200:
+		// the call (key 7, absent) has to evict the eldest, a negative key (seed C10-s24)
+		sm := self.MethodByName("SetMax")
+		if !sm.IsValid() || sm.Type().NumIn() != 1 {
+			return false, nil
+		}
+		populateKeys(self, ct, 200, func(i int) int { return -(i + 1) })
+		sm.Call([]reflect.Value{reflect.ValueOf(200)})
+	}
 	if it.State == "negative-capacity" {
 		// "no bound" is written 0 or any negative number (SetMax(-1), SetCapacity(-1)): three elements, bound -1
 		set := false
@@ -202,7 +212,7 @@ func runSweepItem(i uint64) (bool, error) {
 	}
 	m := self.MethodByName(it.Method)
 	k := 1
-	if it.State == "full" {
+	if it.State == "full" || it.State == "negative-keys-grown-full" {
 		k = 7 // a key that is not present: the call has to make room
 	}
 	args := callArgs(m, k, 5, self, ct)
@@ -290,7 +300,7 @@ var sweepDeadlockName, sweepDeadlockMode = func() (string, string) {
 }()
 
 var sweepDeadlock = pbt.RegisterSweep(pbt.Sweep{Prop: "C10", Name: sweepDeadlockName,
-	Rule: sweepDeadlockMode + "exhaustive over (type, exported method, state) for the 17 hash map/set types, the linked list and the two request queues (reflection over the method sets; states empty / 3 elements / 200 elements / bounded and full / 3 elements with the structure itself passed wherever a structure of its own type is expected / 3 elements and a key whose Hash and Equals panic / 3 elements with the bound set to -1 (unbounded) / 3 elements and caller-supplied functions - Sort comparators, the queues' Failed and Overflowed callbacks with the queue at its bound - that panic): the method is invoked with generated arguments in its own goroutine on an instance nobody else touches, followed by a locking probe (Clear); a call found parked on a sync primitive inside golib in three consecutive goroutine-stack samples is a self-deadlock (no wall-clock verdict; a blocking dequeue on an empty queue is not issued); every (type, method, state) is a distinct non-trivial case",
+	Rule: sweepDeadlockMode + "exhaustive over (type, exported method, state) for the 17 hash map/set types, the linked list and the two request queues (reflection over the method sets; states empty / 3 elements / 200 elements / bounded and full / 3 elements with the structure itself passed wherever a structure of its own type is expected / 3 elements and a key whose Hash and Equals panic / 3 elements with the bound set to -1 (unbounded) / 200 elements with negative keys and then the bound set to 200, so that the call evicts an entry that went through two table growths / 3 elements and caller-supplied functions - Sort comparators, the queues' Failed and Overflowed callbacks with the queue at its bound - that panic): the method is invoked with generated arguments in its own goroutine on an instance nobody else touches, followed by a locking probe (Clear); a call found parked on a sync primitive inside golib in three consecutive goroutine-stack samples is a self-deadlock (no wall-clock verdict; a blocking dequeue on an empty queue is not issued); every (type, method, state) is a distinct non-trivial case",
 	N:    uint64(len(sweepItems)), Run: runSweepItem,
 	Show: func(i uint64) interface{} { return sweepItems[i] }})
 
